@@ -392,4 +392,28 @@ HistStep(q) ==
   [bad |-> UNION {{[step |-> q.evals[i].step, fn |-> q.evals[i].fn, form |-> q.evals[i].form, at |-> j]
                     : j \in {jj \in 1..Len(q.evals[i].pairs) : ~SameOutcome(q.evals[i].pairs[jj][1], q.evals[i].pairs[jj][2])}}
                   : i \in 1..Len(q.evals)}]
+---------------------------------------------------------------------------
+\* Elementwise clause ("for scalars and arrays alike"): a call with an array argument is the scalar
+\* call applied position by position, whatever the ORDER of the elements and with repeated elements.
+\* A pattern lists, for 6 array positions, which of 5 distinct arguments stands there: the first five
+\* positions are a permutation that is not its own inverse (so neither sorted, reversed nor a product of
+\* swaps - a result put back with the wrong permutation cannot coincide), the sixth repeats one of them.
+ElemPatterns == {s \in [1..6 -> 1..5] : (\A i, j \in 1..5 : i # j => s[i] # s[j]) /\ (\E i \in 1..5 : s[s[i]] # i)}
+ElemArgs(m, a) == LET xs == ArgsG(m, a) IN
+   IF Len(xs) >= 9 THEN <<xs[1], xs[3], xs[5], xs[7], xs[9]>> ELSE SubSeq(xs, 1, 5)
+Near(x, y, tol) == x = y \/ DClose(x, y, tol)
+\* q.arr[i], q.ref[i]: <<status, value>> of position i of the array call and of the reference (the scalar
+\* call on that element; for the ModelIsotherm wrapper the bare model on the same array).  Answer per position:
+\*   ok | skip (a reported failure is not judged) | misplaced (the value another position should hold)
+\*   | wrong (no reference value at all) | novalue (the array call raised where the reference returns)
+ElemStep(q) ==
+  LET tol == IF q.model \in AllModels THEN TolOf(q.model) ELSE DTol(6)
+      n == Len(q.arr)
+      Cls(i) == LET x == q.arr[i]  y == q.ref[i] IN
+         IF x[1] = 1 \/ y[1] = 1 THEN "skip"
+         ELSE IF x[1] # 0 \/ y[1] # 0 THEN (IF x[1] = y[1] THEN "ok" ELSE IF x[1] = 3 THEN "novalue" ELSE "wrong")
+         ELSE IF Near(x[2], y[2], tol) THEN "ok"
+         ELSE IF \E k \in 1..n : q.ref[k][1] = 0 /\ Near(x[2], q.ref[k][2], tol) THEN "misplaced"
+         ELSE "wrong"
+  IN [cls |-> [i \in 1..n |-> Cls(i)]]
 =============================================================================
